@@ -438,10 +438,10 @@ Definition dg_wf (c : dg_cfg) : bool :=
   && (length (dg_sel c) <=? dg_ndims c)%nat
   && forallb (fun p => (1 <=? p)%nat) (dg_world c).
 
-(** ** the collector's time slot: ti = t // dt; idx = ti % saveStep (Python floor division and
-    modulo on integers = Z.div / Z.modulo).  With float arguments Python's t // dt is a float and
-    cannot index the table: that case is outside this model. *)
-Definition dg_slot (t dt saveStep : Z) : Z := (t / dt) mod saveStep.
+(** ** the collector's time slot: ti = int(t/dt + 0.5); idx = int(ti % saveStep) - the nearest step, half up
+    (t >= 0).  On integers, in exact arithmetic, floor(t/dt + 1/2) = (2 t + dt) / (2 dt) with Z.div (floor).
+    Float arguments are modelled over exact rationals and in binary64 in DiagnosticsSlotQ.v. *)
+Definition dg_slot (t dt saveStep : Z) : Z := ((2 * t + dt) / (2 * dt)) mod saveStep.
 
 (** the table after a sequence of collect() calls: slot -> number of the call whose column it holds *)
 Fixpoint dg_store (tab : list (option nat)) (i : nat) (v : nat) : list (option nat) :=
@@ -601,18 +601,21 @@ Proof.
 Qed.
 
 (** ** 3.3 the time slot *)
-Lemma dg_slot_of_step ti dt s r : (0 < dt -> 0 <= r < dt -> dg_slot (ti * dt + r) dt s = ti mod s)%Z.
-Proof. intros Hdt Hr. unfold dg_slot. f_equal. symmetry. apply (Z.div_unique_pos _ dt ti r); lia. Qed.
+Lemma dg_slot_of_step k dt s r : (0 < dt -> - dt <= 2 * r < dt -> dg_slot (k * dt + r) dt s = k mod s)%Z.
+Proof. intros Hdt Hr. unfold dg_slot. f_equal. symmetry. apply (Z.div_unique_pos _ (2 * dt) k (2 * r + dt)); lia. Qed.
+
+Lemma dg_slot_on_grid k dt s : (0 < dt -> dg_slot (k * dt) dt s = k mod s)%Z.
+Proof. intros Hdt. rewrite <- (dg_slot_of_step k dt s 0) by lia. f_equal. ring. Qed.
 
 Lemma dg_slot_range t dt s : (0 < s -> 0 <= dg_slot t dt s < s)%Z.
 Proof. intros Hs. unfold dg_slot. apply Z.mod_pos_bound. exact Hs. Qed.
 
-Lemma dg_slot_next t dt s : (0 < dt -> dg_slot (t + dt) dt s = (dg_slot t dt s + 1) mod s)%Z.
-Proof. intros Hdt. unfold dg_slot. replace (t + dt)%Z with (t + 1 * dt)%Z by ring.
+Lemma dg_slot_add t dt s k : (0 < dt -> dg_slot (t + k * dt) dt s = (dg_slot t dt s + k) mod s)%Z.
+Proof. intros Hdt. unfold dg_slot. replace (2 * (t + k * dt) + dt)%Z with (2 * t + dt + k * (2 * dt))%Z by ring.
   rewrite Z.div_add by lia. rewrite Zplus_mod_idemp_l. reflexivity. Qed.
 
-Lemma dg_slot_add t dt s k : (0 < dt -> dg_slot (t + k * dt) dt s = (dg_slot t dt s + k) mod s)%Z.
-Proof. intros Hdt. unfold dg_slot. rewrite Z.div_add by lia. rewrite Zplus_mod_idemp_l. reflexivity. Qed.
+Lemma dg_slot_next t dt s : (0 < dt -> dg_slot (t + dt) dt s = (dg_slot t dt s + 1) mod s)%Z.
+Proof. intros Hdt. rewrite <- (dg_slot_add t dt s 1 Hdt). f_equal. ring. Qed.
 
 (** saveStep consecutive steps never share a slot: nothing is overwritten between two reduce() calls *)
 Lemma dg_slot_distinct t dt s i j : (0 < dt -> 0 < s -> 0 <= i < j -> j < s ->
